@@ -63,6 +63,6 @@ CHECKS["C19"] = dict(
         dict(name="TestC19Runtime", env={"C19_AVOID_DEFAULT": _C19_AVOID},
              quick=dict(cases=4000, shards=4, timeout=900), thorough=dict(cases=25000, shards=16, timeout=3000)),
         dict(name="TestC19NoCrash",
-             quick=dict(cases=30000, shards=2, timeout=900), thorough=dict(cases=150000, shards=16, timeout=3000)),
+             quick=dict(cases=30000, shards=2, timeout=900), thorough=dict(cases=80000, shards=16, timeout=3000)),
     ],
 )
